@@ -128,6 +128,7 @@ type Obligation struct {
 	noLemmas bool
 	blk     int
 	factBlk []int
+	hints   []hintT // hypotheses whose spec applications deserve one unfolding (assumed loop invariants)
 }
 
 type Exec struct {
@@ -155,6 +156,12 @@ type Exec struct {
 	freshRefs map[*Term]bool
 	firstIter []*Term
 	sortFlag  *Term
+	hints     []hintT
+}
+
+type hintT struct {
+	t   *Term
+	blk int // loop header block the invariant belongs to
 }
 
 type Frame struct {
@@ -171,6 +178,7 @@ type Frame struct {
 	curBlock *ssa.BasicBlock
 	cur    *Term // current guard (reach of current block)
 	dbg    map[string][]ssa.Value
+	dbgAll map[string][]ssa.Value
 	top    bool
 	noFreeze bool
 }
@@ -216,18 +224,28 @@ func (ex *Exec) addFact(t *Term) {
 	if t == TTrue || ex.pure {
 		return
 	}
-	// split top-level conjunctions (also under one implication) so that slicing works per conjunct
+	// split conjunctions (also under nested implications) so that slicing works per conjunct
 	if t.Head == "and" && t.Bind == nil {
 		for _, a := range t.Args {
 			ex.addFact(a)
 		}
 		return
 	}
-	if t.Head == "=>" && len(t.Args) == 2 && t.Args[1].Head == "and" && t.Args[1].Bind == nil {
-		for _, a := range t.Args[1].Args {
-			ex.addFact(Implies(t.Args[0], a))
+	if t.Head == "=>" && len(t.Args) == 2 {
+		guard, body := t.Args[0], t.Args[1]
+		for body.Head == "=>" && len(body.Args) == 2 {
+			guard = And(guard, body.Args[0])
+			body = body.Args[1]
 		}
-		return
+		if body.Head == "and" && body.Bind == nil {
+			for _, a := range body.Args {
+				ex.addFact(Implies(guard, a))
+			}
+			return
+		}
+		if body != t.Args[1] {
+			t = Implies(guard, body)
+		}
 	}
 	ex.facts = append(ex.facts, t)
 	ex.factBlk = append(ex.factBlk, ex.curBlk)
@@ -252,7 +270,7 @@ func (fr *Frame) oblige(kind, label string, props []string, goal *Term, pos toke
 	if ex.c != nil && (kind == "safe" || kind == "term" || strings.HasPrefix(kind, "loop") && strings.HasPrefix(label, "variant") || len(props) == 0) {
 		props = unionProps(props, ex.c.Props)
 	}
-	o := &Obligation{blk: ex.curBlk, factBlk: ex.factBlk, ex: ex, base: base, pos: pos, Name: name, Func: ex.fname, Kind: kind, Props: props, NFacts: len(ex.facts), Facts: ex.facts, Goal: g, Where: ex.p.srcLine(pos)}
+	o := &Obligation{hints: ex.hints, blk: ex.curBlk, factBlk: ex.factBlk, ex: ex, base: base, pos: pos, Name: name, Func: ex.fname, Kind: kind, Props: props, NFacts: len(ex.facts), Facts: ex.facts, Goal: g, Where: ex.p.srcLine(pos)}
 	if g == TTrue {
 		// holds by construction of the terms (e.g. code and spec build the same term)
 		o.Verdict, o.Solver, o.Facts = "unsat", "syntactic", nil
@@ -314,7 +332,7 @@ func (ex *Exec) zero(t types.Type) *Term {
 		return VNil
 	case *types.Slice:
 		es := w.SortOf(u.Elem())
-		return w.MkSlice(es, ConstArray(SArray(SInt, es), ex.zero(u.Elem())), IntLit(0), TTrue)
+		return w.MkSlice(es, ConstArray(SArray(SInt, es), ex.zeroElem(u.Elem())), IntLit(0), TTrue)
 	case *types.Array:
 		return ConstArray(s, ex.zero(u.Elem()))
 	case *types.Map:
@@ -349,6 +367,16 @@ func (ex *Exec) zero(t types.Type) *Term {
 	}
 	ex.unsupp("zero value of %s", t)
 	return ex.p.FreshConst("zero", s)
+}
+
+// zeroElem: the default element of arrays. For AST nodes it is NodeBottom (the representation of
+// "no node"; its fields are unconstrained, which over-approximates reading a zero ASTNode) so that
+// all empty child lists are the same term.
+func (ex *Exec) zeroElem(t types.Type) *Term {
+	if ex.p.w.SortOf(t) == SNode {
+		return mk("NodeBottom", SNode)
+	}
+	return ex.zero(t)
 }
 
 // typing facts about a freshly introduced (havocked) value of Go type t
@@ -1046,9 +1074,8 @@ func (fr *Frame) execBlock(b *ssa.BasicBlock, preds []*ssa.BasicBlock, li *loopI
 			}
 			fr.vals[in] = fr.mergePhi(in, preds)
 		case *ssa.DebugRef:
-			if id, ok := in.Expr.(interface{ String() string }); ok && in.Object() != nil {
-				_ = id
-				fr.dbg[in.Object().Name()] = append(fr.dbg[in.Object().Name()], in.X)
+			if v, ok := in.Object().(*types.Var); ok && v != nil && !v.IsField() {
+				fr.dbg[v.Name()] = append(fr.dbg[v.Name()], in.X)
 			}
 		case *ssa.If:
 			c := fr.term(fr.val(in.Cond))
@@ -1081,6 +1108,39 @@ func (fr *Frame) mergePhi(phi *ssa.Phi, preds []*ssa.BasicBlock) *GVal {
 		}
 		gv = append(gv, fr.val(phi.Edges[i]))
 		conds = append(conds, fr.edgeCond(p, b))
+	}
+	// values living in local regions are materialised in the state of the edge they come from
+	if len(gv) > 1 {
+		same := true
+		for _, g := range gv[1:] {
+			if g != gv[0] {
+				same = false
+			}
+		}
+		if !same {
+			k := 0
+			saved := fr.ex.st
+			for _, p := range b.Preds {
+				if _, ok := fr.reach[p]; !ok || b.Dominates(p) {
+					continue
+				}
+				v := gv[k]
+				if (v.Reg != nil || (v.T == nil && v.Origin != nil)) && fr.out[p] != nil {
+					sameReg := true
+					for _, o := range gv {
+						if o.Reg != v.Reg {
+							sameReg = false
+						}
+					}
+					if !sameReg || v.Reg == nil {
+						fr.ex.st = fr.out[p]
+						gv[k] = &GVal{T: fr.term(v), Typ: v.Typ, Fresh: v.Fresh}
+					}
+				}
+				k++
+			}
+			fr.ex.st = saved
+		}
 	}
 	return fr.mergeVals(gv, conds, phi.Type())
 }
